@@ -16,12 +16,12 @@ PROPS = {
         'units': ['P'], 'spec_tags': ['wire', 'fold'],
         'trusted': [TRUSTED_BYTES, TRUSTED_NOM, TRUSTED_STD, TRUSTED_DERIVE,
                     'ResponseFieldCache::insert (ahash HashSet) unverified: returns an Arc<str> equal to its argument (part of the parser contract)'],
-        'bounded': ['conformance'],
+        'bounded': ['conformance', 'search'],
     },
 }
 for _k in ('C02', 'C09', 'C10', 'C18'):
     PROPS[_k] = {'units': ['P'], 'spec_tags': ['wire', 'fold'],
-                 'trusted': [TRUSTED_BYTES, TRUSTED_NOM, TRUSTED_STD, TRUSTED_DERIVE, TRUSTED_TOKIO], 'bounded': ['conformance']}
+                 'trusted': [TRUSTED_BYTES, TRUSTED_NOM, TRUSTED_STD, TRUSTED_DERIVE, TRUSTED_TOKIO], 'bounded': ['conformance', 'search']}
 
 # which proved lemmas of vx_spec belong to which property (by module)
 SPEC_MODULE_PROPS = {
